@@ -12,9 +12,8 @@ claim("C20",
       "The upstream revision is refuted by two vm_compute witnesses (D3a, D3b; both repaired by fix: commits). Model tied to "
       "/repo by exact correspondence on random trip tables.",
       "Trusted: Coq kernel + VM; correspondence harness; datetime parsing and timedelta(hours=float) rounding are glue (standing "
-      "times enter the model as integer microseconds computed by the harness's own formula). No axioms. Partial: that the idle "
-      "list is ordered by availability time (the 'idle longest' reading of FIFO) is checked on every generated table by the "
-      "Python predicate, not proved.",
+      "times enter the model as integer microseconds computed by the harness's own formula). No axioms. The idle list is proved to be ordered by availability time (C20_idle_list_fifo, "
+      "for trips arriving no earlier than they depart and non-negative standing times), so first-match = idle longest.",
       "Coq proof (invariant by induction over trips) + exact differential correspondence", "5.20")
 claim("C15",
       "Axiom-free iff-theorems for ALL timestamps, season lists, levels and window layouts: membership in a peak-load window "
